@@ -194,7 +194,7 @@ func runSemCase(c *core.Ctx, t target, cs *SemCase, opt string, cls rowClassFn) 
 			desc["sig"] = fmt.Sprintf("%s|%s|%s|trap|%s|%s", t.Name, cs.Family, cs.Desc, class, trimReason(out.Trap))
 			c.Disagree++
 			c.Report(fmt.Sprintf("%s/%s: %s: emitted code reaches a target-undefined operation on an input for which WGSL defines the result: %s", t.Name, opt, cs.Desc, out.Trap),
-				desc, map[string]any{"wgsl": src, "input": row, "expected": exp.Out, "emitted": emittedText(t, art), "trap": out.Trap})
+				desc, map[string]any{"wgsl": src, "input": row, "expected": exp.Out, "emitted": emittedText(t, art), "trap": out.Trap, "prog": cs.Prog, "family": cs.Family, "desc": cs.Desc, "opt": opt, "backend": t.Name})
 			continue
 		}
 		c.Eval(key, true)
@@ -232,7 +232,7 @@ func runSemCase(c *core.Ctx, t target, cs *SemCase, opt string, cls rowClassFn) 
 					gv = got[bad]
 				}
 				c.Report(fmt.Sprintf("%s/%s: %s: buffer %s word %d is %d (0x%08x), WGSL prescribes %d (0x%08x); input %v", t.Name, opt, cs.Desc, wg.S(g, "name"), bad, gv, uint32(gv), want[bad], uint32(want[bad]), row[0]),
-					desc, map[string]any{"wgsl": src, "input": row, "expected": exp.Out, "observed": got, "emitted": emittedText(t, art)})
+					desc, map[string]any{"wgsl": src, "input": row, "expected": exp.Out, "observed": got, "emitted": emittedText(t, art), "prog": cs.Prog, "family": cs.Family, "desc": cs.Desc, "opt": opt, "backend": t.Name})
 				break
 			}
 		}
